@@ -69,6 +69,9 @@ func ParseKern(src []byte) (Kern, int, error) {
 		return Kern{}, 0, fmt.Errorf("unsupported kern table version: %d", major)
 	}
 
+	if L := len(src); uint64(numTables)*6 > uint64(L) { // a subtable header has at least 6 bytes
+		return Kern{}, 0, fmt.Errorf("reading Kern: "+"EOF: expected length: %d, got %d", uint64(numTables)*6, L)
+	}
 	out := make([]KernSubtable, numTables)
 	var (
 		err    error
